@@ -75,7 +75,8 @@ pub fn run(which: &'static str, ctx: &Ctx, rep: &mut Report) -> Value {
     let sens = ["aes", "kuznyechik", "serpent"];
     let items = star_items(&subjects, ctx, |s| {
         let i = subjects.iter().position(|x| x.name() == s.name()).unwrap();
-        ok[i] && (which == "C20" || sens.contains(&s.krate()))
+        let _ = &sens;
+        ok[i]
     });
     let chunks: Mutex<BTreeMap<String, u64>> = Mutex::new(BTreeMap::new());
     let perkey: Mutex<BTreeMap<(String, usize, u32), u64>> = Mutex::new(BTreeMap::new());
@@ -111,7 +112,7 @@ pub fn run(which: &'static str, ctx: &Ctx, rep: &mut Report) -> Value {
         }
     }
     #[cfg(not(feature = "lite"))]
-    if which == "C20" {
+    {
         use crate::special as sp;
         let mut cases = Vec::new();
         if ctx.wants_k("rc2", "Rc2::new_with_eff_key_len") {
@@ -129,12 +130,9 @@ pub fn run(which: &'static str, ctx: &Ctx, rep: &mut Report) -> Value {
         }
         special_chunks(which, cases, rep, &chunks);
     }
+    // hazmat functions are backend-dependent too; feature-off builds simply lack these chunks
     #[cfg(feature = "lite")]
-    if which == "C20" && cfg!(feature = "allfeat") {
-        special_chunks(which, crate::special::hazmat_cases(ctx.tier), rep, &chunks);
-    }
-    if which == "C03" && cfg!(feature = "allfeat") {
-        // hazmat functions are backend-dependent too; feature-off builds simply lack these chunks
+    if cfg!(feature = "allfeat") && ctx.wants_k("aes", "hazmat") {
         special_chunks(which, crate::special::hazmat_cases(ctx.tier), rep, &chunks);
     }
     let m = chunks.into_inner().unwrap();
